@@ -245,8 +245,10 @@ def scan_header(path):
                 if T(k + 1) != '(' or not (T(k + 2) or '').isdigit() or T(k + 3) != ')':
                     err(k, 'P1_ALIGNAS form not understood')
                 aligned = int(T(k + 2)); k += 4
+            if T(k) == 'alignas' and T(k + 1) == '(' and (T(k + 2) or '').isdigit() and T(k + 3) == ')':
+                aligned = int(T(k + 2)); k += 4
             if T(k) in ('alignas', '__attribute__'):
-                err(k, 'alignment attribute other than P1_ALIGNAS')
+                err(k, 'alignment attribute form not understood')
             if not IDENT.match(T(k) or ''):
                 err(k, 'struct name expected')
             name = T(k); k += 1
@@ -364,15 +366,49 @@ def cpp_program(enums, structs):
     return '\n'.join(L) + '\n'
 
 
-def clang_enum_constants(tu_path):
-    """(qualified enum, enumerator) pairs as clang's AST has them, for enums in the messages namespace."""
+def clang_ast(tu_path):
     rc, so, se = vf.sh('clang++-14 -std=c++14 -I%s/src -fsyntax-only -Xclang -ast-dump -fno-color-diagnostics %s' % (vf.REPO, tu_path), timeout=300)
     if rc != 0:
         raise Unrecognised('clang ast-dump failed: ' + se[-2000:])
+    return so
+
+
+def clang_enum_constants(ast):
+    """(qualified enum, enumerator) pairs as clang's AST has them, for enums in the messages namespace."""
     out = set()
-    for m in re.finditer(r"EnumConstantDecl 0x[0-9a-f]+ <[^>]*> \S+(?: referenced| used)* (\w+) '([^']+)'", so):
+    for m in re.finditer(r"EnumConstantDecl 0x[0-9a-f]+ <[^>]*> \S+(?: referenced| used)* (\w+) '([^']+)'", ast):
         if m.group(2).startswith(NS + '::'):
             out.add((m.group(2), m.group(1)))
+    return sorted(out)
+
+
+def clang_records(ast):
+    """qualified names of every struct/class/union DEFINED inside the messages namespace, from the AST tree (indentation)."""
+    out, stack = set(), []
+    node = re.compile(r'^([|` -]*)(\w+) 0x[0-9a-f]+ (.*)$')
+    for line in ast.split('\n'):
+        m = node.match(line)
+        if not m:
+            continue
+        depth, kind, rest = len(m.group(1)) // 2, m.group(2), m.group(3)
+        while stack and stack[-1][0] >= depth:
+            stack.pop()
+        if kind == 'NamespaceDecl':
+            name = rest.split()[-1] if not rest.rstrip().endswith('>') else ''
+            if name == 'inline':
+                name = ''
+            stack.append((depth, 'ns', name))
+        elif kind == 'CXXRecordDecl':
+            mm = re.search(r'\b(struct|class|union) (\w+) definition\b', rest)
+            name = mm.group(2) if mm else None
+            stack.append((depth, 'rec', name))
+            if mm and ' implicit ' not in ' ' + rest + ' ':
+                q = '::'.join(n for _, k, n in stack if n)
+                if q.startswith(NS + '::') and all(n for _, k, n in stack):
+                    out.add(q)
+        elif kind in ('ClassTemplateDecl', 'ClassTemplateSpecializationDecl', 'ClassTemplatePartialSpecializationDecl', 'FunctionDecl', 'CXXMethodDecl',
+                      'FunctionTemplateDecl', 'LinkageSpecDecl', 'EnumDecl'):
+            stack.append((depth, 'other', None if kind != 'LinkageSpecDecl' else ''))
     return sorted(out)
 
 
@@ -391,11 +427,17 @@ def cpp_values(enums, structs):
     try:
         src = os.path.join(d, 'c03_values.cc'); exe = os.path.join(d, 'c03_values')
         open(src, 'w').write(prog)
-        ast = clang_enum_constants(src)
+        tree = clang_ast(src)
+        ast = clang_enum_constants(tree)
         mine = sorted((e['qual'], nm) for e in enums for nm in e['enumerators'])
         if ast != mine:
             a, b = set(ast), set(mine)
             raise Unrecognised('tokenizer and clang AST disagree on the enumerator set: only clang %r, only tokenizer %r'
+                               % (sorted(a - b)[:8], sorted(b - a)[:8]))
+        recs, mine_s = clang_records(tree), sorted(s['qual'] for s in structs)
+        if recs != mine_s:
+            a, b = set(recs), set(mine_s)
+            raise Unrecognised('tokenizer and clang AST disagree on the set of structs defined in the messages namespace: only clang %r, only tokenizer %r'
                                % (sorted(a - b)[:8], sorted(b - a)[:8]))
         rc, so, se = vf.sh('clang++-14 -std=c++14 -O0 -I%s/src %s -o %s' % (vf.REPO, src, exe), timeout=600)
         if rc != 0:
